@@ -103,6 +103,60 @@ type Term struct {
 	Name string   // var / UF name
 	A, B int      // extract hi/lo, ext amount, int2bv width
 	ID   int64
+	Sig  int // for BV: all bits at positions >= Sig are known to be zero
+}
+
+func computeSig(t *Term) int {
+	if t.S.K != KBV {
+		return 0
+	}
+	w := t.S.W
+	lim := func(n int) int {
+		if n > w {
+			return w
+		}
+		return n
+	}
+	switch t.Op {
+	case OConst:
+		return t.C.BitLen()
+	case OZExt:
+		return t.Args[0].Sig
+	case OBvAnd:
+		return min(t.Args[0].Sig, t.Args[1].Sig)
+	case OBvOr, OBvXor:
+		return max(t.Args[0].Sig, t.Args[1].Sig)
+	case OBvAdd:
+		return lim(max(t.Args[0].Sig, t.Args[1].Sig) + 1)
+	case OBvMul:
+		return lim(t.Args[0].Sig + t.Args[1].Sig)
+	case OBvUDiv, OBvURem:
+		if t.Op == OBvURem {
+			return min(t.Args[0].Sig, t.Args[1].Sig)
+		}
+		return t.Args[0].Sig
+	case OBvLShr:
+		return t.Args[0].Sig
+	case OBvShl:
+		if t.Args[1].IsConst() && t.Args[1].C.IsInt64() {
+			return lim(t.Args[0].Sig + int(t.Args[1].C.Int64()))
+		}
+		return w
+	case OIte:
+		return max(t.Args[1].Sig, t.Args[2].Sig)
+	case OConcat:
+		if t.Args[0].Sig == 0 {
+			return t.Args[1].Sig
+		}
+		return t.Args[1].S.W + t.Args[0].Sig
+	case OExtract:
+		s := t.Args[0].Sig - t.B
+		if s < 0 {
+			s = 0
+		}
+		return lim(s)
+	}
+	return w
 }
 
 type termShard struct {
@@ -143,6 +197,7 @@ func intern(t *Term) *Term {
 		return e
 	}
 	t.ID = atomic.AddInt64(&termCounter, 1)
+	t.Sig = computeSig(t)
 	sh.m[key] = t
 	return t
 }
@@ -367,6 +422,9 @@ func Eq(a, b *Term) *Term {
 	if a.IsConst() {
 		a, b = b, a
 	}
+	if b.IsConst() && a.S.K == KBV && b.C.BitLen() > a.Sig {
+		return TFalse
+	}
 	// eq(ite(c, k1, k2), k) with consts
 	if b.IsConst() && a.Op == OIte {
 		x, y := a.Args[1], a.Args[2]
@@ -479,6 +537,26 @@ func BvBin(op Op, a, b *Term) *Term {
 	if a.IsConst() && b.IsConst() {
 		return bvFold(op, a, b)
 	}
+	// canonical narrowing: operate in the smallest width that holds the result, then zero-extend
+	{
+		k := w
+		switch op {
+		case OBvAdd:
+			k = max(a.Sig, b.Sig) + 1
+		case OBvMul:
+			k = a.Sig + b.Sig
+		case OBvAnd:
+			k = min(a.Sig, b.Sig)
+		case OBvOr, OBvXor, OBvUDiv, OBvURem:
+			k = max(a.Sig, b.Sig)
+		}
+		if k < w {
+			if k == 0 {
+				return BVu(0, w)
+			}
+			return ZExt(BvBin(op, Extract(a, k-1, 0), Extract(b, k-1, 0)), w)
+		}
+	}
 	switch op {
 	case OBvAdd:
 		if isZero(a) {
@@ -516,6 +594,9 @@ func BvBin(op Op, a, b *Term) *Term {
 		}
 		if a.IsConst() {
 			a, b = b, a
+		}
+		if b.IsConst() && b.C.Sign() > 0 && new(big.Int).And(b.C, new(big.Int).Sub(b.C, bigOne)).Sign() == 0 {
+			return BvBin(OBvShl, a, BVu(uint64(b.C.BitLen()-1), w))
 		}
 	case OBvAnd:
 		if isZero(a) || isZero(b) {
@@ -599,9 +680,26 @@ func BvBin(op Op, a, b *Term) *Term {
 		if isOne(b) {
 			return a
 		}
+		if b.IsConst() && b.C.Sign() > 0 && new(big.Int).And(b.C, new(big.Int).Sub(b.C, bigOne)).Sign() == 0 {
+			return BvBin(OBvLShr, a, BVu(uint64(b.C.BitLen()-1), w))
+		}
 	case OBvURem:
 		if isOne(b) {
 			return BVu(0, w)
+		}
+		if b.IsConst() && b.C.Sign() > 0 && new(big.Int).And(b.C, new(big.Int).Sub(b.C, bigOne)).Sign() == 0 {
+			return BvBin(OBvAnd, a, BVConst(new(big.Int).Sub(b.C, bigOne), w))
+		}
+	case OBvSDiv:
+		if isOne(b) {
+			return a
+		}
+		if a.Sig < w && b.Sig < w {
+			return BvBin(OBvUDiv, a, b)
+		}
+	case OBvSRem:
+		if a.Sig < w && b.Sig < w {
+			return BvBin(OBvURem, a, b)
 		}
 	}
 	return intern(&Term{Op: op, S: a.S, Args: []*Term{a, b}})
@@ -661,6 +759,20 @@ func BvCmp(op Op, a, b *Term) *Term {
 		if isAllOnes(b) {
 			return TTrue
 		}
+	}
+	if (op == OBvULt || op == OBvULe) && b.IsConst() && a.Sig < a.S.W && b.C.BitLen() > a.Sig {
+		return TTrue
+	}
+	if (op == OBvULt || op == OBvULe) && a.IsConst() && b.Sig < b.S.W && a.C.BitLen() > b.Sig {
+		return TFalse
+	}
+	// signed comparison of two values with clear sign bits is the unsigned one
+	if (op == OBvSLt || op == OBvSLe) && a.Sig < a.S.W && b.Sig < b.S.W {
+		uop := OBvULt
+		if op == OBvSLe {
+			uop = OBvULe
+		}
+		return BvCmp(uop, a, b)
 	}
 	// compare zero-extended values in narrow width when possible
 	if (op == OBvULt || op == OBvULe) && a.Op == OZExt && b.IsConst() {
@@ -735,6 +847,12 @@ func Extract(a *Term, hi, lo int) *Term {
 	if a.IsConst() {
 		r := new(big.Int).Rsh(a.C, uint(lo))
 		return BVConst(r, w)
+	}
+	if lo >= a.Sig {
+		return BVu(0, w)
+	}
+	if hi >= a.Sig && a.Sig > 0 {
+		return ZExt(Extract(a, a.Sig-1, lo), w)
 	}
 	switch a.Op {
 	case OExtract:
